@@ -2,7 +2,7 @@
 Glue for the `asg` records: runs `Model/Assignments.lean` on the operation sequence of the harness and
 renders every observable exactly as `harness/src/asg.rs` does.
 -/
-import Pumpkin.Model.Assignments
+import Pumpkin.Model.AssignmentsEvents
 import Driver.Parse
 
 namespace Driver.AsgRun
@@ -99,6 +99,26 @@ def unfixed (s : St) (k : Nat) : String :=
   let xs := (St.unfixed k s.trail s.doms).foldr insertSorted []
   "y[" ++ ";".intercalate (xs.map (fun (x, v) => s!"{x}={v}")) ++ "]"
 
+def evCode : Ev → Nat
+  | .assign => 0 | .lowerBound => 1 | .upperBound => 2 | .removal => 3
+
+def insertEv (p : Nat × Nat) : List (Nat × Nat) → List (Nat × Nat)
+  | [] => [p]
+  | q :: r => if p == q then q :: r else if p.1 < q.1 ∨ (p.1 == q.1 && decide (p.2 < q.2)) then p :: q :: r else q :: insertEv p r
+
+def showEvents (es : List (Nat × Ev)) : String :=
+  let xs := (es.map (fun (x, e) => (x, evCode e))).foldr insertEv []
+  "ev[" ++ ";".intercalate (xs.map (fun (x, k) => s!"{x}.{k}")) ++ "]"
+
+/-- events of `create_new_integer_variable_sparse` (the removals after `grow`) -/
+def sparseEvents (s : St) (vs : List Int) : List (Nat × Ev) :=
+  let lo := minL vs
+  let hi := maxL vs
+  let x := s.doms.length
+  let s1 := s.grow lo hi
+  ((rangeI lo hi).foldl (fun (acc : St × List (Nat × Ev)) v =>
+    if vs.contains v then acc else ((acc.1.post (.ne x v)).1, acc.2 ++ postEvents acc.1 (.ne x v))) (s1, [])).2
+
 def runOps : List XOp → St → List (Int × Int) → List String → List String
   | [], _, _, acc => acc.reverse
   | o :: r, s, decl, acc =>
@@ -106,20 +126,20 @@ def runOps : List XOp → St → List (Int × Int) → List String → List Stri
     | .grow lo hi =>
       let s' := s.grow lo hi
       let decl' := decl ++ [(lo, hi)]
-      runOps r s' decl' ((s!"g{s.doms.length}" ++ snapshot s' decl') :: acc)
+      runOps r s' decl' ((s!"g{s.doms.length}" ++ snapshot s' decl' ++ showEvents []) :: acc)
     | .sparse vs =>
       let s' := growSparse s vs
       let decl' := decl ++ [(minL vs, maxL vs)]
-      runOps r s' decl' ((s!"g{s.doms.length}" ++ snapshot s' decl') :: acc)
+      runOps r s' decl' ((s!"g{s.doms.length}" ++ snapshot s' decl' ++ showEvents (sparseEvents s vs)) :: acc)
     | .post p =>
       let (s', ok) := s.post p
-      runOps r s' decl ((s!"p{if ok then 1 else 0}" ++ snapshot s' decl) :: acc)
+      runOps r s' decl ((s!"p{if ok then 1 else 0}" ++ snapshot s' decl ++ showEvents (postEvents s p)) :: acc)
     | .newLevel =>
       let s' := s.newLevel
-      runOps r s' decl (("n" ++ snapshot s' decl) :: acc)
+      runOps r s' decl (("n" ++ snapshot s' decl ++ showEvents []) :: acc)
     | .sync k =>
       let s' := s.sync k
-      runOps r s' decl (("y" ++ snapshot s' decl ++ unfixed s k) :: acc)
+      runOps r s' decl (("y" ++ snapshot s' decl ++ unfixed s k ++ showEvents []) :: acc)
     | .query => runOps r s decl (query s decl :: acc)
 
 def describe : XOp → String
